@@ -32,7 +32,11 @@ def main():
                 keys += [k for k in cm.group(3).split(',') if k]
         ok = 'demo_clean_rc=0' in out and 'demo_patched_rc=1' in out and 'applies=yes' in out
         was = meta.get('caught_by')
-        meta['caught_by'] = ' '.join(caught) or 'NOT CAUGHT'
+        if not caught and 'note' in meta and str(was).startswith('NOT A VIOLATION'):
+            # a seed recorded as not breaking the property (see its note) stays recorded that way
+            meta['caught_by'] = was
+        else:
+            meta['caught_by'] = ' '.join(caught) or 'NOT CAUGHT'
         meta['keys'] = sorted(set(keys))[:12]
         meta['rechecked_against_repo_head'] = subprocess.check_output(['git', '-C', '/repo', 'rev-parse', '--short', 'HEAD']).decode().strip()
         if not ok:
